@@ -21,6 +21,17 @@ def snap_key(files, with_mtime=True):
 
 
 def oracle(ctx, case, io):
+    ro_reads = {}          # (probe round, index) -> what a read answered, around a pause of a read-only store with a ticker configured
+    for k, (st, res) in enumerate(zip(case["steps"], io["steps"])):
+        if st.get("roprobe") and not res.get("panic"):
+            gid, j = st["roprobe"]
+            ans = (res.get("status"), oracles.hdr(res, "Docker-Content-Digest"), res.get("b64") if st["kind"] in ("tags", "refs") else None)
+            if gid == 0:
+                ro_reads[j] = ans
+            elif j in ro_reads and ro_reads[j] != ans:
+                ctx.violation("read-only store: %s %s answered %s, and %s after a pause without any request" % (st["impl"].get("method"), st["impl"].get("path"), ro_reads[j][:2], ans[:2]),
+                              oracles.hist(case, k, res), "C14:readonly-reads-changed")
+                break
     frozen = None          # snapshot taken when the store became read-only / memory-over-directory
     frozen_k = None
     mode = None
@@ -89,10 +100,23 @@ def make_cases(ctx, first):
             k = w.add(upload_post("a"))            # a session left open: Close leaves an empty _uploads directory
             conf2 = dict(conf, ro=True) if variant == 0 else dict(conf, store="memdir")
             mode = "readonly" if variant == 0 else "memdir"
+            ticking = variant == 1 and (i // 5) % 2 == 0
+            if ticking:
+                # read-only memory store over the directory with a collection period configured: nothing may change what it serves
+                conf2 = dict(conf2, ro=True, freq_ms=15, untagged=True, grace_ms=-1)
             w.add(dict(kind="freeze", mode=mode, impl=dict(op="restart", conf=conf2),
                        model=sl("setcfg", s_cfg(dict(conf2, store="dir"))) if variant == 0 else "(skip)"))
             w.conf = conf2
             modelled = variant == 0
+            if ticking:
+                for gid in (0, 1):
+                    a0 = len(w.steps)
+                    w.probe()
+                    for j, s_ in enumerate(w.steps[a0:]):
+                        s_["roprobe"] = (gid, j)
+                        s_["model"] = "(skip)"
+                    if gid == 0:
+                        w.add(special("sleep", secs=0.4))
         elif variant in (2, 3):
             # legacy / corrupt layouts written by the harness
             conf2 = mkconf(store="dir", ro=True) if variant == 2 else mkconf(store="memdir")
